@@ -12,17 +12,20 @@ RULE = ("structures: (a) PLANTED pairs — for element pairs of the radii table 
         "through a face, an edge and a corner image, on orthorhombic / triclinic(±tilt) / arbitrarily oriented cells whose "
         "perpendicular widths are between 1.02x and 3x the largest cutoff in use, and without a cell; (b) random clusters "
         "of 2–12 atoms grown at 0.5–1.6x the cutoff from earlier atoms, wrapped into the cell; (c) dyadic fractional "
-        "coordinates (k/64) in tight cells; (d) 0/1-atom structures and unknown elements (tie only). every structure is also produced through the library's own operations "
+        "coordinates (k/64) in tight cells; (d) 0/1-atom structures and unknown elements (tie only). Every structure is also produced through the library's own operations "
         "(structure[perm], structure[unsorted subset], copy(), to_ase/from_ase_atoms, import from an ASE object, translate()+wrap, "
         "Atoms(elements=...), replicate((1,1,1)), two halves joined with extend(), accessor reads) with ground truth from the "
         "harness's own construction; (e) strongly skewed in-domain cells "
-        "(tilt 1–3 edges); (f) scan_min tie: the minimum over the 27 scanned images, model vs uc_neighbor_offsets+cdist of the "
+        "(tilt 1–3 edges); (g) guard boundaries: smallest width in [1+1e-9, 1.02]x cutoff with negative-diagonal / left-handed / "
+        "permuted cells, offsets of 1e-10 and 1e-11 around the cutoff, atoms ON the faces/edges/corners (fractional 0 or 1) and up "
+        "to 1/64 of a cell length outside (margin guard of bonds_eq_minimage_margin), integer-typed cells and coordinates; "
+        "(f) scan_min tie: the minimum over the 27 scanned images, model vs uc_neighbor_offsets+cdist of the "
         "real code, on structure pairs and on small narrow / mildly tilted / strongly skewed cells. Every case is also "
         "shifted by a random vector + wrapped back, and permuted, on the real code. Non-trivial = distinct unambiguous structure with "
         "at least one bond that exists only through a periodic image (not at the direct distance), or — without a cell — a "
         "pair within 1e-3 (relative) of its cutoff. max_bond_length: all ordered pairs of table elements.")
 
-AMBIG = 1e-9
+AMBIG = 1e-12      # decisions closer than this (relative, in dist^2) are within the float error of the code under test
 OFFSETS = [1e-3, 5e-3, 2e-2, 1e-1]
 
 
@@ -56,9 +59,24 @@ def fl(v):
     return float(core.unq(v))
 
 
+INT_DTYPE = [False]     # set by check_case for structures whose cell and coordinates are integers
+
+
+def _arr(x):
+    a = np.array(x, dtype=float)
+    return a.astype(int) if INT_DTYPE[0] and np.all(a == np.round(a)) else a
+
+
 def make_atoms(elems, pos, cell):
     """the structure built with the explicit-types constructor (no mass lookup: "D" has a radius but no mass)"""
     from mofun import Atoms
+    if INT_DTYPE[0]:
+        cell_ = None if cell is None else _arr(cell)
+        if not elems:
+            return Atoms(cell=cell_)
+        types = list(dict.fromkeys(elems))
+        return Atoms(atom_types=[types.index(e) for e in elems], atom_type_elements=types,
+                     atom_type_masses=[1.0] * len(types), positions=_arr(pos).reshape(-1, 3), cell=cell_)
     if not elems:
         return Atoms(cell=None if cell is None else np.array(cell, dtype=float))
     types = []
@@ -103,6 +121,15 @@ def library_routes(inp, elems, pos, cell, want, routes):
     bad = []
     n = len(elems)
     if n == 0:
+        # the atom-less structure through the library's own operations: always no bonds
+        e0 = lambda: make_atoms([], [], cell)
+        for route, mk in [("copy", lambda: e0().copy()), ("ase-roundtrip", lambda: Atoms.from_ase_atoms(e0().to_ase())),
+                          ("replicate-111", (lambda: e0().replicate((1, 1, 1))) if cell is not None else None),
+                          ("getitem-empty-array", lambda: e0()[np.array([], dtype=int)])]:
+            if mk is not None and route.split("-empty")[0] in routes + ["getitem"]:
+                got = bonds_of(mk)
+                if got.get("pairs") != []:
+                    bad.append(("bonding of the atom-less structure differs from the rule [route %s]" % route, got, []))
         return bad
     perm = inp.get("perm") or list(range(n))
     inv = {old: k for k, old in enumerate(perm)}
@@ -115,8 +142,14 @@ def library_routes(inp, elems, pos, cell, want, routes):
     for route in routes:
         if route == "getitem-perm":
             renamed = sorted(sorted([inv[i], inv[j]]) for i, j in want)
-            expect(route, bonds_of(lambda: base()[list(perm)]), renamed,
-                   "bonding of structure[perm] (the library's own indexing) does not follow the renaming")
+            # the index in one of the public spellings: list, tuple, numpy array, negative indices, numpy ints
+            sp = (n + perm[0]) % 5
+            idx = [list(perm), tuple(perm), np.array(perm), [o - n for o in perm], [np.int64(o) for o in perm]][sp]
+            expect(route, bonds_of(lambda: base()[idx]), renamed,
+                   "bonding of structure[perm] (the library's own indexing, spelling %s) does not follow the renaming"
+                   % ["list", "tuple", "array", "negative", "np.int64"][sp])
+            if n == 1:
+                expect(route, bonds_of(lambda: base()[0]), [], "bonding of structure[0] (a python int index) is not empty")
         elif route == "getitem-subset":
             sub = list(perm[:max(1, n // 2 + 1)])              # an unsorted selection without repetition
             w, s = oracle([elems[o] for o in sub], [pos[o] for o in sub], cell)
@@ -222,6 +255,14 @@ def check_case(inp):
     elems = inp["elems"]
     pos = [[fl(v) for v in p] for p in inp["pos"]]
     cell = None if inp["cell"] is None else [[fl(v) for v in row] for row in inp["cell"]]
+    INT_DTYPE[0] = bool(inp.get("intdtype"))
+    try:
+        return _check_case(inp, elems, pos, cell)
+    finally:
+        INT_DTYPE[0] = False
+
+
+def _check_case(inp, elems, pos, cell):
     real = run_real(elems, pos, cell)
     T = tables()
     if any(e not in T["radii"] for e in elems):
@@ -290,6 +331,20 @@ def make_cell(rng, kind, cmax, tight=None):
         s = 1 if kind == "tri+" else -1
         t = lambda x: s * rng.randint(1, 8) / 16 * x
         m = [[a, 0, 0], [t(a), b, 0], [t(a), rng.choice([1, -1]) * t(b), c]]
+    elif kind == "edge":
+        # the boundary of the width guard: smallest perpendicular width in [1 + 1e-9, 1.02] * cmax, rows with negative
+        # diagonal entries, left-handed (det < 0) and permuted cells
+        m = np.array([[a, 0, 0], [rng.uniform(-0.5, 0.5) * a, b, 0],
+                      [rng.uniform(-0.5, 0.5) * a, rng.uniform(-0.5, 0.5) * b, c]])
+        if rng.random() < 0.3:
+            m = np.diag(np.diag(m))
+        m = m * np.array([rng.choice([1, -1]) for _ in range(3)]).reshape(3, 1)
+        if rng.random() < 0.5:
+            m = m[rng.sample(range(3), 3)]
+        m = m * (cmax * rng.choice([1 + 1e-9, 1 + 1e-6, rng.uniform(1.0 + 1e-9, 1.02)]) / min(widths(m)))
+        while min(widths(m)) < cmax * (1 + 5e-10):
+            m = m * (1 + 1e-9)
+        return m
     elif kind == "skew":  # strongly tilted (tilt factors of 1–3 edges): the NEAREST image can lie outside the 27
         t = lambda x: rng.choice([1, -1]) * rng.randint(16, 48) / 16 * x
         m = [[a, 0, 0], [t(a), b, 0], [t(a) if rng.random() < 0.5 else 0, t(b) if rng.random() < 0.5 else 0, c]]
@@ -507,7 +562,73 @@ def cases(ctx):
             out.append(planted(rng, a, b, mode, rng.choice([-1, 1]) * 1e-4, "skew", extra=rng.random() < 0.25))
     for _ in range(ctx.n(20, 200)):
         out.append(cluster(rng, "skew", ctx.n(6, 9)))
+    # the boundaries of the guards (appended after everything else): width floor 1.00*cmax with negative-diagonal /
+    # left-handed cells, offsets of 1e-10 / 1e-11 around the cutoff, atoms ON the faces and slightly outside the cell,
+    # integer-typed cells and coordinates
+    for (a, b) in rng.sample(pairs, min(len(pairs), ctx.n(50, 500))):
+        for mode in range(4):
+            out.append(planted(rng, a, b, mode, rng.choice([-1, 1]) * rng.choice([1e-4, 1e-10, 1e-11]), "edge"))
+        out.append(planted(rng, a, b, 0, rng.choice([-1, 1]) * rng.choice([1e-10, 1e-11]), "none"))
+    for _ in range(ctx.n(60, 600)):
+        out.append(boundary_case(rng, ctx.n(6, 9)))
+    for _ in range(ctx.n(30, 300)):
+        out.append(integer_case(rng, ctx.n(6, 9)))
     return [c for c in out if c is not None], out.count(None)
+
+
+def boundary_case(rng, nmax):
+    """atoms ON the faces / edges / corners of the cell (fractional coordinates exactly 0 or 1) and up to delta = 1/64 of a
+    cell length outside it, in a cell whose widths are just enough for the margin guard: cutoff <= (1 - 2 delta) * width"""
+    n = rng.randint(2, nmax)
+    pool = rng.sample(PALETTE, rng.randint(1, 3))
+    elems = [rng.choice(pool) for _ in range(n)]
+    outside = rng.random() < 0.5
+    delta = Fraction(1, 64) if outside else Fraction(0)
+    cm = cmax_of(elems) / float(1 - 2 * delta)
+    cell = make_cell(rng, "edge", cm) if rng.random() < 0.5 else make_cell(rng, rng.choice(CELL_KINDS), cm, tight=True)
+    d = float(delta)
+    def fr():
+        if outside:
+            return rng.choice([-d, 1 + d, -d / 2, 1 + d / 2, rng.uniform(-d, 1 + d), rng.randint(0, 64) / 64])
+        return rng.choice([0.0, 1.0, 0.0, 1.0, rng.randint(0, 64) / 64, rng.random()])
+    F = np.array([[fr() for _ in range(3)] for _ in range(n)])
+    if outside:
+        F = np.clip(F, -d * (1 - 1e-9), 1 + d * (1 - 1e-9))      # strictly within the margin after rounding
+    inp = build(rng, elems, list(F @ cell), cell, "boundary/%s" % ("outside" if outside else "faces"))
+    inp["margin"] = core.q(delta if outside else Fraction(1, 2 ** 40))
+    return inp
+
+
+def integer_case(rng, nmax):
+    """integer-typed cell and integer coordinates (numpy int arrays handed to the constructor)"""
+    n = rng.randint(2, nmax)
+    pool = rng.sample(PALETTE, rng.randint(1, 3))
+    elems = [rng.choice(pool) for _ in range(n)]
+    cm = cmax_of(elems)
+    k = math.ceil(cm) + rng.randint(1, 3)
+    s = lambda: rng.choice([1, -1])
+    cell = np.array([[s() * (k + rng.randint(0, 3)), 0, 0], [rng.randint(-2, 2), s() * (k + rng.randint(0, 3)), 0],
+                     [rng.randint(-2, 2), rng.randint(-2, 2), s() * (k + rng.randint(0, 4))]], dtype=float)
+    if rng.random() < 0.5:
+        cell = cell[rng.sample(range(3), 3)]
+    while min(widths(cell)) < cm * 1.001:
+        cell = cell * 2
+    # integer points whose fractional coordinates lie in [0, 1)
+    inv = np.linalg.inv(cell)
+    P = []
+    lo, hi = (np.minimum(cell, 0).sum(axis=0)).astype(int), (np.maximum(cell, 0).sum(axis=0)).astype(int)
+    for _ in range(n):
+        for _ in range(200):
+            p = np.array([rng.randint(int(lo[i]), int(hi[i])) for i in range(3)], dtype=float)
+            f = p @ inv
+            if np.all(f > 1e-9) and np.all(f < 1 - 1e-9) or np.all(np.abs(f - np.round(f)) < 1e-12) and np.all(np.round(f) == 0):
+                break
+        else:
+            p = np.zeros(3)
+        P.append(p)
+    inp = build(rng, elems, P, cell, "integer")
+    inp["intdtype"] = True
+    return inp
 
 
 _GRID13 = np.array(list(itertools.product(range(-6, 7), repeat=3)), dtype=float)
@@ -574,12 +695,11 @@ def run(ctx, oracle_only=False):
         ctx.count("planted:no-placement-found", unplaced)
     ops, impls = [], []
     for k, inp in enumerate(cs):
-        # library-side routes: all of them in the quick tier; the reordering route + two rotating ones in the thorough tier
-        if ctx.tier == "quick":
-            inp["routes"] = list(ROUTES)
-        else:
-            rest = ROUTES[1:]
-            inp["routes"] = [ROUTES[0], rest[k % len(rest)], rest[(k // len(rest) + 3) % len(rest)]]
+        # library-side routes: the reordering route always + rotating others (4 in the quick tier, 2 in the thorough tier);
+        # every route is exercised by hundreds of cases in either tier
+        rest = ROUTES[1:]
+        w = 4 if ctx.tier == "quick" else 2
+        inp["routes"] = [ROUTES[0]] + [rest[(k * w + t) % len(rest)] for t in range(w)]
         bad, real, slack, nontriv = check_case(inp)
         ctx.case({k: inp[k] for k in ("elems", "pos", "cell")}, nontrivial=nontriv)
         ctx.count("kind:" + inp["kind"].split("/")[0] + "/" + ("cell" if inp["cell"] else "nocell"))
@@ -645,10 +765,12 @@ def run(ctx, oracle_only=False):
         if "err" in m:
             ctx.compare("bonds", inp, r, {"err": m["err"]})
             continue
-        if inp["cell"] is not None and m.get("guards") is not True and all(e in T["radii"] for e in inp["elems"]):
-            ctx.disagree("bonds", inp, r, m, "generated case is outside the guards of bonds_eq_minimage (generator error)")
+        gkey = "guards_margin" if inp.get("margin") is not None else "guards"
+        if inp["cell"] is not None and m.get(gkey) is not True and all(e in T["radii"] for e in inp["elems"]):
+            ctx.disagree("bonds", inp, r, m, "generated case is outside the guards of bonds_eq_minimage%s (generator error)"
+                         % ("_margin" if gkey == "guards_margin" else ""))
             continue
-        if m.get("slack") is not None and core.unq(m["slack"]) < Fraction(1, 10 ** 9):
+        if m.get("slack") is not None and core.unq(m["slack"]) < Fraction(1, 10 ** 12):
             ctx.ambiguous += 1
             ctx.count("ambiguous:model")
             continue
